@@ -506,6 +506,25 @@ void suite_rsmat(int tier) {
 }
 
 /* ======================================================================= xor (C05) */
+#include "xor_golden.h"
+/* parity j of the stripe is the XOR of the data payloads its fixed (golden) equation names */
+static void xor_fixed_equations(stripe_t *s) {
+    cfg_t c = s->c; size_t bs = s->flen - HDR;
+    for (int g = 0; g < N_XOR_GOLDEN; g++) {
+        if (XOR_GOLDEN[g].hd != c.hd || XOR_GOLDEN[g].m != c.m || XOR_GOLDEN[g].k != c.k) continue;
+        unsigned char *acc = malloc(bs ? bs : 1);
+        for (int j = 0; j < c.m; j++) {
+            memset(acc, 0, bs);
+            for (int i = 0; i < c.k; i++) if ((XOR_GOLDEN[g].pbm[j] >> i) & 1) for (size_t b = 0; b < bs; b++) acc[b] ^= (unsigned char)s->all[i][HDR + b];
+            if (memcmp(acc, s->all[c.k + j] + HDR, bs)) oracle_fail("C05", "XOR (%d,%d,%d): parity %d is not the XOR of the data fragments its fixed equation (%#x) names", c.k, c.m, c.hd, j, XOR_GOLDEN[g].pbm[j]);
+        }
+        free(acc);
+        stat_add("xor.fixed_equation_stripes", 1);
+        return;
+    }
+    oracle_fail("C05", "no fixed equations recorded for XOR (%d,%d,%d)", c.k, c.m, c.hd);
+}
+
 void suite_xor(int tier) {
     /* every table x payload sizes x all erasure sets below hd: decode and reconstruct each member */
     for (int x = 0; x < n_xor_shapes; x++) {
@@ -520,6 +539,7 @@ void suite_xor(int tier) {
             stripe_t s;
             if (op_enc(c, 0, d, len, &s) != 0) { oracle_fail("C05", "encode failed for XOR (%d,%d,%d)", c.k, c.m, c.hd); free(d); continue; }
             free(d);
+            xor_fixed_equations(&s);
             for (int e = 1; e < c.hd; e++) {
                 int comb[8]; for (int i = 0; i < e; i++) comb[i] = i;
                 do {
